@@ -178,6 +178,12 @@ func (e *Engine) runUnits(names []string, opts SolveOpts) []*UnitResult {
 				results[i] = e.bvProof()
 				return
 			}
+			if n == "model:errors" {
+				mu.Lock()
+				results[i] = e.modelProof()
+				mu.Unlock()
+				return
+			}
 			if n == "own:fields" {
 				mu.Lock()
 				results[i] = e.ownProof()
